@@ -15,5 +15,7 @@ theorem order_Program_restoreTerminalState : Tea.Gen.fact_order_Program_restoreT
 theorem body_Program_initCancelReader : Tea.Gen.fact_body_Program_initCancelReader = Tea.Doc.fact_body_Program_initCancelReader := rfl
 theorem order_standardRenderer_stop : Tea.Gen.fact_order_standardRenderer_stop = Tea.Doc.fact_order_standardRenderer_stop := rfl
 theorem order_standardRenderer_start : Tea.Gen.fact_order_standardRenderer_start = Tea.Doc.fact_order_standardRenderer_start := rfl
+theorem body_Program_readLoop : Tea.Gen.fact_body_Program_readLoop = Tea.Doc.fact_body_Program_readLoop := rfl
+theorem body_Program_waitForReadLoop : Tea.Gen.fact_body_Program_waitForReadLoop = Tea.Doc.fact_body_Program_waitForReadLoop := rfl
 
 end Tea.Props.Bridge.C17
